@@ -1091,6 +1091,15 @@ func (e *liveEnv) liveCancel(r *h.Run, rng *h.Rng, fam, kind, proto string, h2 b
 				return
 			}
 			failing("Receive(blocked)", err, false)
+			if deadline {
+				// the handler's deadline (derived from the announced timeout, rounded down) may pass
+				// a moment before the client's own: what follows is judged as "after the context
+				// ended" only once it HAS ended
+				select {
+				case <-ctx.Done():
+				case <-time.After(2 * time.Second):
+				}
+			}
 			if kind == "bidi" {
 				err, ok = c.step("Receive(again)", recv)
 				if !ok {
